@@ -90,9 +90,54 @@ func (p *Path) Rets() []ssa.Value {
 	}
 	out := make([]ssa.Value, len(r.Results))
 	for i, v := range r.Results {
-		out[i] = p.Resolve(v)
+		out[i] = p.Resolve(p.ResolveLocalLoad(p.Resolve(v)))
 	}
 	return out
+}
+
+// ResolveLocalLoad: if v is a load of a non-escaping local Alloc (the form go/ssa uses for
+// results of functions with defers), returns the value last stored to it on this path
+// before the load; otherwise v.
+func (p *Path) ResolveLocalLoad(v ssa.Value) ssa.Value {
+	ld, ok := v.(*ssa.UnOp)
+	if !ok || ld.Op != token.MUL {
+		return v
+	}
+	a, ok := ld.X.(*ssa.Alloc)
+	if !ok {
+		return v
+	}
+	for _, ref := range *a.Referrers() {
+		switch x := ref.(type) {
+		case *ssa.Store:
+			if x.Addr != a {
+				return v // address stored somewhere: escapes
+			}
+		case *ssa.UnOp, *ssa.DebugRef:
+		default:
+			return v
+		}
+	}
+	var last ssa.Value
+	done := false
+	for _, b := range p.Blocks {
+		for _, in := range b.Instrs {
+			if in == ssa.Instruction(ld) {
+				done = true
+				break
+			}
+			if st, ok := in.(*ssa.Store); ok && st.Addr == a {
+				last = st.Val
+			}
+		}
+		if done {
+			break
+		}
+	}
+	if last == nil {
+		return v
+	}
+	return last
 }
 
 // Has reports whether the path executes instruction in.
@@ -459,4 +504,144 @@ func (p *Path) HoldsWith(ev *Evaluator) (holds, ok bool) {
 		return false, true // a definitely-false atom decides regardless of unknown others
 	}
 	return holds, ok
+}
+
+// Walk visits the path in execution order: every instruction of every block, and after a
+// block that ends in a conditional branch, the (phi-resolved) decision taken there.
+func (p *Path) Walk(onInstr func(ssa.Instruction), onCond func(Fact)) {
+	k := 0
+	for i, b := range p.Blocks {
+		for _, in := range b.Instrs {
+			if onInstr != nil {
+				onInstr(in)
+			}
+		}
+		if _, ok := b.Instrs[len(b.Instrs)-1].(*ssa.If); ok && i < len(p.Blocks)-1 {
+			if k < len(p.Conds) && onCond != nil {
+				onCond(p.Conds[k])
+			}
+			k++
+		}
+	}
+}
+
+// loopHeaders returns the blocks that are targets of a back edge (a predecessor they
+// dominate).
+func loopHeaders(fn *ssa.Function) []*ssa.BasicBlock {
+	var out []*ssa.BasicBlock
+	for _, b := range fn.Blocks {
+		for _, p := range b.Preds {
+			if b.Dominates(p) {
+				out = append(out, b)
+				break
+			}
+		}
+	}
+	return out
+}
+
+// enumIterPaths enumerates the paths of ONE iteration of the loop headed by header: from
+// header until control returns to header (Path.Exit == nil, the path's last block is the
+// back-edge source) or leaves the function (Exit is the Return/Panic). Phis of header are
+// left unresolved inside the path (they denote the loop-carried values at iteration start);
+// NextIter resolves their value for the following iteration.
+func enumIterPaths(fn *ssa.Function, header *ssa.BasicBlock, maxPaths int) (paths []*Path, ok bool) {
+	type edge struct{ a, b *ssa.BasicBlock }
+	ok = true
+	var blocks []*ssa.BasicBlock
+	var conds []Fact
+	used := map[edge]bool{}
+	visits := map[*ssa.BasicBlock]int{}
+	emit := func(exit ssa.Instruction) {
+		if len(paths) >= maxPaths {
+			ok = false
+			return
+		}
+		paths = append(paths, &Path{Fn: fn, Blocks: append([]*ssa.BasicBlock{}, blocks...), Conds: append([]Fact{}, conds...), Exit: exit})
+	}
+	var walk func(b *ssa.BasicBlock)
+	step := func(from, to *ssa.BasicBlock) {
+		if to == header {
+			emit(nil)
+			return
+		}
+		e := edge{from, to}
+		if used[e] {
+			return
+		}
+		used[e] = true
+		walk(to)
+		used[e] = false
+	}
+	walk = func(b *ssa.BasicBlock) {
+		if !ok {
+			return
+		}
+		blocks = append(blocks, b)
+		visits[b]++
+		defer func() {
+			blocks = blocks[:len(blocks)-1]
+			visits[b]--
+		}()
+		last := b.Instrs[len(b.Instrs)-1]
+		switch t := last.(type) {
+		case *ssa.Return, *ssa.Panic:
+			emit(last)
+		case *ssa.If:
+			cur := &Path{Fn: fn, Blocks: blocks}
+			nf := normFact(cur.resolveNotHeader(t.Cond, header), true)
+			for i, s := range b.Succs {
+				f := Fact{nf.Cond, nf.Val == (i == 0)}
+				if c, isC := f.Cond.(*ssa.Const); isC && c.Value != nil && c.Value.Kind() == constant.Bool {
+					if constant.BoolVal(c.Value) != f.Val {
+						continue
+					}
+				}
+				contra := false
+				if in, isIn := f.Cond.(ssa.Instruction); !isIn || visits[in.Block()] <= 1 {
+					for _, pc := range conds {
+						if pc.Cond == f.Cond && pc.Val != f.Val {
+							contra = true
+						}
+					}
+				}
+				if contra {
+					continue
+				}
+				conds = append(conds, f)
+				step(b, s)
+				conds = conds[:len(conds)-1]
+			}
+		default:
+			for _, s := range b.Succs {
+				step(b, s)
+			}
+		}
+	}
+	walk(header)
+	return paths, ok
+}
+
+// resolveNotHeader resolves phis along the path except those of the loop header (index 0).
+func (p *Path) resolveNotHeader(v ssa.Value, header *ssa.BasicBlock) ssa.Value {
+	if phi, ok := v.(*ssa.Phi); ok && phi.Block() == header {
+		return v
+	}
+	return p.Resolve(v)
+}
+
+// NextIter returns the value a header phi takes on the next iteration after this path
+// (which must end with a back edge to header).
+func (p *Path) NextIter(phi *ssa.Phi) ssa.Value {
+	last := p.Blocks[len(p.Blocks)-1]
+	for k, pb := range phi.Block().Preds {
+		if pb == last {
+			v := phi.Edges[k]
+			if ph2, ok := v.(*ssa.Phi); ok && ph2.Block() == phi.Block() {
+				return v
+			}
+			return p.Resolve(v)
+		}
+	}
+	return nil
 }
